@@ -64,18 +64,20 @@ func verifC08Group(N, maxVal int) {
 		}
 	}
 	vsymAssert(total == want, "[maporder] the result holds min(limit, N) entries for a positive limit, all N otherwise")
+	// where each record sits
+	inStreams := make([]int, N)
 	for j := 0; j < N; j++ {
 		labels := map[string]string{"msg": "x"}
 		if has[j] {
 			labels["a"] = vals[j]
 		}
-		inStreams, elsewhere := 0, 0
+		elsewhere := 0
 		for _, st := range streams {
 			same := verifMapEq(st.Stream.Value, labels)
 			for _, e := range st.Values {
 				if e.T == ts[j] {
 					if same {
-						inStreams++
+						inStreams[j]++
 						vsymAssert(e.V == "x", "the entry keeps its line")
 					} else {
 						elsewhere++
@@ -84,12 +86,29 @@ func verifC08Group(N, maxVal int) {
 			}
 		}
 		vsymAssert(elsewhere == 0, "[maporder] an entry never sits in a stream with other labels")
-		if j < want {
-			vsymAssert(inStreams == 1, "[maporder] each of the first min(limit, N) records sits once in the stream carrying exactly its labels")
-		} else {
-			vsymAssert(inStreams == 0, "[maporder] records beyond the limit are not returned")
+		vsymAssert(inStreams[j] <= 1, "[maporder] no record is returned twice")
+	}
+	// which records a positive limit keeps: the first `want` IN TIME ORDER
+	byTime, byArrival := true, true
+	for j := 0; j < N; j++ {
+		rank := 0
+		for i := 0; i < N; i++ {
+			if ts[i] < ts[j] {
+				rank++
+			}
+		}
+		if (inStreams[j] == 1) != (rank < want) {
+			byTime = false
+		}
+		if (inStreams[j] == 1) != (j < want) {
+			byArrival = false
 		}
 	}
+	if !byTime && byArrival {
+		vsymFinding("F25", true, "[maporder] a positive limit keeps the first L records in ARRIVAL order, not in time order: when the storage hands records over out of time order (a container whose stderr line carries an earlier timestamp than the stdout line before it), later records are returned and earlier ones dropped")
+		return
+	}
+	vsymAssert(byTime, "[maporder] a positive limit returns the first min(limit, N) matching records in time order, each once, in the stream carrying exactly its labels")
 	vsymReach("C08_group")
 }
 
